@@ -141,13 +141,16 @@ def opP : P Op := do
 def errName : GenErr → String
   | .schemaError => "SchemaError" | .keyError => "KeyError" | .valueError => "ValueError"
   | .recursionError => "RecursionError" | .assertionError => "AssertionError" | .overflowError => "OverflowError"
-  | .typeError => "TypeError" | .unmodelled => "UNMODELLED"
+  | .typeError => "TypeError" | .attributeError => "AttributeError" | .unmodelled => "UNMODELLED"
 
 def showRes : Except GenErr Txt → String
   | .ok t => "ok =" ++ String.ofList (esc t)
   | .error e => "error " ++ errName e
 
+def whichOk (w : List Char) (l : List String) : Bool := l.any (fun x => x.toList = w)
+
 def runGen (op : Op) : Option String :=
+  if ¬ whichOk op.which ["map", "table", "default", "read", "xsd", "dmcontrol"] then none else
   match parseString op.schema with
   | .error _ => some "error SchemaError"
   | .ok s =>
@@ -170,6 +173,7 @@ def showX {α : Type} [BEq α] (rows : Except GenErr α) (text : Except GenErr T
   | _, .error e => "error " ++ errName e
 
 def runX (op : Op) : Option String :=
+  if ¬ whichOk op.which ["map", "table", "default"] then none else
   match parseString op.schema with
   | .error _ => some "error SchemaError"
   | .ok s =>
